@@ -364,6 +364,7 @@ pub fn property() -> Property {
                 name: "faulted-trains",
                 rule: "see property rule",
                 cases: (2_000_000, 10_000_000),
+                fuzz_decode: Some(crate::fuzzdec::c03_case),
                 strategy,
                 check,
                 required_classes: &["delivered-some", "delivered-none", "no-fault", "train-from-encapsulator", "spliced-same-id", "fault-drop", "fault-dup", "fault-burst", "fault-truncate", "fault-crc", "fault-total-length"],
